@@ -86,14 +86,14 @@ class TLCResult:
 
 
 def run(module, cfg=None, workers=None, simulate=None, depth=None, seed=None, env=None,
-        timeout=1800, extra=(), deadlock=False, coverage=False, heap="4g", deque=False):
+        timeout=1800, extra=(), deadlock=False, coverage=False, heap="4g", deque=False, wd=None):
     """Run TLC on specs/<module>.tla with specs/<cfg>.cfg.
 
     simulate: None or dict(num=N[, file=path]).
     deadlock: True -> check for deadlock (default off: most specs here are generators /
               bounded machines whose terminal states are intended).
     """
-    wd = workdir()
+    wd = wd or workdir()
     cfg = cfg or module
     meta = util.subdir("meta/%s_%d_%d" % (cfg, os.getpid(), int(time.time() * 1000) % 10 ** 9))
     jopts = ["-Djava.io.tmpdir=" + util.subdir("jtmp")]
@@ -157,3 +157,21 @@ def write_module(name, text):
     with open(os.path.join(workdir(), name + ".tla"), "w") as f:
         f.write(text)
     return name
+
+
+def mutant_dir(name, module, replacements):
+    """A copy of the spec directory in which `module` has been textually mutated
+    (used to show that an invariant is not vacuous: the mutated mechanism must violate it)."""
+    src = workdir()
+    d = util.subdir("specmut_" + name)
+    for f in os.listdir(src):
+        if f.endswith((".tla", ".cfg")):
+            shutil.copy(os.path.join(src, f), d)
+    p = os.path.join(d, module + ".tla")
+    text = open(p).read()
+    for old, new in replacements:
+        if text.count(old) != 1:
+            raise ValueError("spec mutant %s: pattern %r occurs %d times" % (name, old, text.count(old)))
+        text = text.replace(old, new)
+    open(p, "w").write(text)
+    return d
